@@ -43,6 +43,14 @@ def strings(raw):
 
 
 FACT_THEOREMS = {
+    # the SIMD kernels and wrapper types, translated from the current source, are the hand-written models
+    "C02": ("theories/Properties/SourceKernelX86.v",
+            ["SRC_sse_kernel", "SRC_sse_remainder_path", "SRC_sse_wrapper", "SRC_sse_from_identity",
+             "SRC_avx_kernel", "SRC_avx_wrapper", "SRC_avx_from_identity"]),
+    "C03": ("theories/Properties/SourceKernelNeon.v",
+            ["SRC_neon_kernel", "SRC_neon_remainder_path", "SRC_neon_wrapper", "SRC_neon_from_identity"]),
+    "C04": ("theories/Properties/SourceKernelWasm.v",
+            ["SRC_wasm_kernel", "SRC_wasm_remainder_path", "SRC_wasm_helpers", "SRC_wasm_wrapper", "SRC_wasm_from_identity"]),
     # the word-level kernel of src/portable.rs, translated from the current source, is the hand-written model
     "C01": ("theories/Properties/SourceKernel.v",
             ["SRC_new", "SRC_zipper_merge_and_add", "SRC_update", "SRC_permute", "SRC_permute_and_update", "SRC_module_reduction",
